@@ -314,6 +314,9 @@ class Rows:
     def T(self):
         return self
 
+    def __len__(self):
+        return 5        # number of rows: any positive number (only handed on to np.ones)
+
 
 class _U:
     def __init__(self, name):
@@ -412,6 +415,176 @@ def run_loop_potential(mutate=None):
     return dict(obls=obls, paths=n, sources=[L.info()], consistent=sym.consistent())
 
 
+# ---------------------------------------------------------------------------------------------------------------------------------
+# biot_savart_2d (the public wrapper): what reaches the kernels.  Generic-row reading with dtype kinds: coordinates may arrive as
+# integer arrays (pixel / lattice indices), z as a real scalar; numpy's *_like constructors inherit the dtype of their prototype.
+class KCol(Col):
+    def __init__(self, v, kind="r", n=None):
+        Col.__init__(self, v)
+        self.kind, self.n = kind, n
+
+    @property
+    def shape(self):
+        return (self.n,)
+
+    def __getitem__(self, key):
+        if isinstance(key, int) and self.n == 1:
+            return self.v
+        return Col.__getitem__(self, key)
+
+    def _k(self, o):
+        ok = o.kind if isinstance(o, KCol) else ("i" if isinstance(o, int) and not isinstance(o, bool) else "r")
+        return "i" if (self.kind == "i" and ok == "i") else "r"
+
+    def _n(self, o):
+        return self.n if not (isinstance(o, KCol) and self.n == 1) else o.n
+
+    def __mul__(self, o):
+        if isinstance(o, (Rows, _U)):
+            return NotImplemented
+        return KCol(self.v * self._c(o), self._k(o), self._n(o))
+    __rmul__ = __mul__
+
+
+class _Len:
+    def __init__(self, name):
+        self.name = name
+
+    def __eq__(self, o):
+        return isinstance(o, _Len) and o.name == self.name
+    __hash__ = object.__hash__
+
+
+def _cast(v, kind):
+    v = v if isinstance(v, SR) else SR(v)
+    return SR(z3.ToReal(z3.ToInt(v.e))) if kind == "i" else v
+
+
+class _BSNP:
+    newaxis = None
+
+    @staticmethod
+    def atleast_1d(*xs):
+        return [x if isinstance(x, KCol) else KCol(x, "r", 1) for x in xs]
+
+    @staticmethod
+    def atleast_2d(*xs):
+        return list(xs)
+
+    @staticmethod
+    def ones_like(x):
+        return KCol(SR(1), x.kind, x.n)
+
+    @staticmethod
+    def full_like(x, v):
+        v = v.v if isinstance(v, Col) else v
+        return KCol(_cast(v, x.kind), x.kind, x.n)
+
+    @staticmethod
+    def zeros_like(x):
+        return KCol(SR(0), x.kind, x.n)
+
+    @staticmethod
+    def ones(n):
+        return KCol(SR(1), "r", n)
+
+    @staticmethod
+    def array(xs):
+        return Rows(list(xs))
+
+    @staticmethod
+    def asarray(x):
+        return x
+
+    @staticmethod
+    def broadcast_to(x, shape):
+        return KCol(x.v, x.kind, shape[0])
+
+    @staticmethod
+    def concatenate(parts, axis=0):
+        assert axis == 1
+        cols = []
+        for p_ in parts:
+            cols += p_.cols if isinstance(p_, Rows) else [p_]
+        return Rows(cols)
+
+
+def run_biot_savart_wrapper(mutate=None):
+    from pyvc import instrument, vc as vcm
+    mut = [(o, n) for (m, o, n) in (mutate or []) if m == EM]
+    L = instrument.load(EM, rebind={"np": _BSNP, "ureg": _U2}, mutate=mut, vc=vcm.VC())
+    fn = L["biot_savart_2d"]
+    calls = []
+
+    def kern(which):
+        def k(ev, pos, J, areas):
+            calls.append((which, ev, pos, J, areas))
+            return _Res(which)
+        return k
+    L.ns["_biot_savart_2d_vector"] = kern("vector")
+    L.ns["_biot_savart_2d_z"] = kern("z")
+    R = z3.Real
+
+    def body():
+        sym.ctx().safety = False
+        tm, tj = SR(R("to_meter")), SR(R("to_amp_per_meter"))
+        for xkind in ("r", "i"):
+            for zmode in ("scalar", "array"):
+                for vector in (True, False):
+                    n = _Len("n")
+                    xv, yv = SR(R("x_k")), SR(R("y_k"))
+                    if xkind == "i":
+                        xi, yi = z3.Int("x_k_int"), z3.Int("y_k_int")
+                        xv, yv = SR(z3.ToReal(xi)), SR(z3.ToReal(yi))
+                    x, y = KCol(xv, xkind, n), KCol(yv, xkind, n)
+                    zs = SR(R("z"))
+                    z = zs if zmode == "scalar" else KCol(zs, "r", n)
+                    pos = Rows([KCol(SR(R("px")), "r", _Len("m")), KCol(SR(R("py")), "r", _Len("m"))])
+                    J = Rows([KCol(SR(R("jx"))), KCol(SR(R("jy")))])
+                    areas, z0 = KCol(SR(R("area"))), SR(R("z0"))
+                    del calls[:]
+                    out = fn(x, y, z, positions=pos, current_densities=J, z0=z0, areas=areas, length_units="um", current_units="uA", vector=vector)
+                    tag = f"{'integer' if xkind == 'i' else 'float'} coordinates, z {zmode}, {'vector' if vector else 'z'}"
+                    ok = len(calls) == 1 and calls[0][0] == ("vector" if vector else "z")
+                    check(f"C20.biot_savart_2d.dispatches_to_the_right_kernel_once[{tag}]", z3.BoolVal(ok))
+                    if not ok:
+                        continue
+                    _, ev, ps, Jk, ak = calls[0]
+                    want_ev = [xv * tm, yv * tm, zs * tm]
+                    for i, ax in enumerate("xyz"):
+                        check(f"C20.biot_savart_2d.evaluation_point_in_metres[{ax}; {tag}]", ev.cols[i].v.e == want_ev[i].e)
+                    want_ps = [SR(R("px")) * tm, SR(R("py")) * tm, z0 * tm]
+                    check(f"C20.biot_savart_2d.sources_on_the_sheet_in_metres[{tag}]", z3.And(*[ps.cols[i].v.e == want_ps[i].e for i in range(3)]) if len(ps.cols) == 3 else z3.BoolVal(False))
+                    check(f"C20.biot_savart_2d.current_density_in_amp_per_metre[{tag}]", z3.And(Jk.cols[0].v.e == (SR(R("jx")) * tj).e, Jk.cols[1].v.e == (SR(R("jy")) * tj).e))
+                    check(f"C20.biot_savart_2d.areas_in_square_metres[{tag}]", ak.v.e == (SR(R("area")) * tm * tm).e)
+                    check(f"C20.biot_savart_2d.result_in_tesla[{tag}]", z3.BoolVal(isinstance(out, tuple) and out[1] == "tesla" and out[0].which == calls[0][0]))
+    obls, n = sym.explore(body)
+    return dict(obls=obls, paths=n, sources=[L.info()], consistent=sym.consistent())
+
+
+class _RowsLen(Rows):
+    def __len__(self):
+        return 5
+
+
+class _Res:
+    def __init__(self, which):
+        self.which = which
+
+    def __mul__(self, u):
+        return (self, u.name)
+
+
+class _U2(_U):
+    def to(self, other):
+        fac = {("um", "m"): "to_meter", ("uA / um", "A / m"): "to_amp_per_meter"}.get((self.name, other))
+        if fac is None:
+            raise sym.Unsupported(f"unit conversion {self.name} -> {other}")
+        v = SR(z3.Real(fac))
+        assume(v > 0)
+        return type("Q", (), {"magnitude": v})()
+
+
 KERNELS = [("sqeuclidean_distance_2d", 2, False), ("sqeuclidean_distance_3d", 3, False), ("euclidean_distance_2d", 2, True), ("euclidean_distance_3d", 3, True)]
 
 
@@ -422,6 +595,7 @@ def units():
         us.append(Unit(nm, DM + ":" + nm, run_dist(nm, dim, root), props=["C20", "C09"], timeout=300))
     us.append(Unit("cdist", DM + ":cdist", run_cdist, props=["C20"], timeout=300))
     us.append(Unit("Solution.field_at_position[call contract]", "tdgl.solution.solution:Solution.field_at_position", run_field_at_position, props=["C20", "C08"], timeout=300))
+    us.append(Unit("biot_savart_2d[call contract]", EM + ":biot_savart_2d", run_biot_savart_wrapper, props=["C20"], timeout=300))
     us.append(Unit("current_loop_vector_potential", EM + ":current_loop_vector_potential", run_loop_potential, props=["C20"], timeout=300))
     return us
 
@@ -454,6 +628,16 @@ def native(seed=0):
             n += 1
             if not np.allclose(B, ref, rtol=1e-9, atol=1e-30) or not np.allclose(Bz, B[:, 2], rtol=1e-12, atol=1e-30):
                 bad.append(dict(what="biot_savart_2d differs from the SI Biot-Savart sum / scalar != z of vector", units=(lu, cu), trial=t))
+        # integer lattice coordinates (pixel indices) with a real scalar height must give what the same points give as floats
+        xi, yi = rng.integers(-3, 4, size=k), rng.integers(-3, 4, size=k)
+        zsc = float(rng.uniform(0.3, 0.9))
+        for vec in (True, False):
+            Bi = em.biot_savart_2d(xi, yi, zsc, positions=pos, current_densities=J, areas=areas, vector=vec).magnitude
+            Bf = em.biot_savart_2d(xi.astype(float), yi.astype(float), zsc, positions=pos, current_densities=J, areas=areas, vector=vec).magnitude
+            n += 1
+            if not np.allclose(Bi, Bf, rtol=1e-12, atol=1e-30):
+                bad.append(dict(what="integer-valued coordinates give a different field than the same coordinates as floats", x=xi.tolist(), y=yi.tolist(), z=zsc, vector=vec,
+                                max_rel_dev=float(np.abs(Bi - Bf).max() / (np.abs(Bf).max() + 1e-300)), trial=t))
         B2 = em.biot_savart_2d(x, y, z, positions=pos, current_densities=2.5 * J, areas=areas).magnitude
         B1 = em.biot_savart_2d(x, y, z, positions=pos, current_densities=J, areas=areas).magnitude
         n += 1
@@ -504,6 +688,8 @@ MUTANTS = [
     dict(name="loop azimuth from the absolute position", edits=[(EM, "    phis = np.arctan2(positions[:, 1], positions[:, 0]) + np.pi / 2", "    phis = np.arctan2(positions[:, 1] + loop_center[:, 1], positions[:, 0] + loop_center[:, 0]) + np.pi / 2")], units=["current_loop_vector_potential"]),
     dict(name="loop radius not converted to metres", edits=[(EM, "    a = loop_radius * to_meter\n    current = current * to_amp\n    positions = positions - loop_center", "    a = loop_radius\n    current = current * to_amp\n    positions = positions - loop_center")], units=["current_loop_vector_potential"]),
     dict(name="loop elliptic integrals swapped", edits=[(EM, "    K = special.ellipk(m)\n    E = special.ellipe(m)", "    K = special.ellipe(m)\n    E = special.ellipk(m)")], units=["current_loop_vector_potential"]),
+    dict(name="z broadcast inherits the integer dtype of x", edits=[(EM, "        z = z * np.ones_like(x)", "        z = np.full_like(x, z[0])")], units=["biot_savart_2d[call contract]"]),
+    dict(name="areas scaled by one length factor only", edits=[(EM, "        areas = areas * to_meter**2", "        areas = areas * to_meter")], units=["biot_savart_2d[call contract]"]),
     dict(name="Bz sign", edits=[(EM, "        Bz_out[i] = Jx_dy - Jy_dx", "        Bz_out[i] = Jy_dx - Jx_dy")]),
     dict(name="r^-2 instead of r^-3", edits=[(EM, "* (dx * dx + dy * dy + dz * dz) ** (-3 / 2)\n            )\n            Jx_dy += pref * Jx[k] * dy\n            Jy_dx += pref * Jy[k] * dx\n        Bz_out", "* (dx * dx + dy * dy + dz * dz) ** (-2 / 2)\n            )\n            Jx_dy += pref * Jx[k] * dy\n            Jy_dx += pref * Jy[k] * dx\n        Bz_out")]),
     dict(name="vector By sign", edits=[(EM, "B_out[i, 1] = -Jx_dz", "B_out[i, 1] = Jx_dz")]),
